@@ -147,6 +147,7 @@ for pid, inv in (("C01", "H1 (no strongly reachable object destructed / released
                  ("C04", "H2 (exactly-once destruction and release, arena drop)"), ("C05", "H3 (weak pointers: no released target, upgrade truth)"),
                  ("C06", "(no barrier / allocation / upgrade call panics)"), ("C07", "H5 (nothing reachable is dead at Marked; resurrection holds for the cycle)"),
                  ("C10", "H6 (Gc count = unreleased allocations, no counter underflow)"),
+                 ("C14", "H1 with DynamicRootSet::stash among the adoption paths (a stashed object survives while the reachable set holds it)"),
                  ("C11", "H1-H4, H6 under injected panics of user trace / destructors, oracles run fault-free afterwards")):
     CLAIMED[pid]["technique"] += HEAP % inv
     CLAIMED[pid]["text"] += HEAP_TEXT
@@ -159,7 +160,7 @@ CLAIMED["C16"]["technique"] += "; interprocedural helper / closure summaries and
 CLAIMED["C18"]["technique"] += "; term interpretation of the slice builder's Drop; loop rule (no pointer-range loop over generic elements); value-moved-into-block rule"
 CLAIMED["C19"]["technique"] += "; macro metavariables never transcribed inside unsafe (macro inventory) ; escape analysis of computed addresses"
 CLAIMED["C12"]["technique"] += "; macro metavariables never transcribed inside unsafe (macro inventory)"
-ENGINES.append({"name": "gcv-heap", "path": "/verif/gcv/heap.py", "serves_properties": ["C01", "C02", "C04", "C05", "C06", "C07", "C10", "C11"],
+ENGINES.append({"name": "gcv-heap", "path": "/verif/gcv/heap.py", "serves_properties": ["C01", "C02", "C04", "C05", "C06", "C07", "C10", "C11", "C14"],
                 "kind_free_text": "bounded heap exploration (E6): the abstract interpreter run over small abstract heaps with an edge relation; level-synchronous parallel breadth-first exploration from the empty arena; invariants H1-H6 are the property statements in terms of reachability; nothing of gc-arena is executed"})
 ENGINES.append({"name": "gcv-canon", "path": "/verif/gcv/canon.py", "serves_properties": ["C01", "C02", "C03", "C04", "C05", "C06", "C07", "C08", "C09", "C10", "C11", "C14", "C18"],
                 "kind_free_text": "normalisation of the fact file to the pinned vocabulary: impl blocks in other modules, moved items, and renamed private items found by their role in the call graph relative to the public API (never by spelling); identity on the unchanged tree"})
